@@ -596,6 +596,97 @@ def run_unprintable_value(chk, spec):
 	if snapshot(v) != before:
 		chk.fail("an assignment that fails for any reason leaves the vector exactly as it was", f"assign/not-atomic/unprintable-{spec['what']}", f"column kind {kind!r}, key {spec['key']!r}")
 
+class _F(float):
+	"""a float subclass (a unit type, a numpy.float64-like)"""
+
+
+class _I(int):
+	pass
+
+
+class _D(date):
+	pass
+
+
+def run_table_special_forms(chk, spec):
+	"""table assignments in their less common spellings: a row index that is an int but not exactly `int` (bool, IntEnum, int subclass), a row value that is a
+	sized non-list iterable, a column named in place through alias() and then addressed by that name"""
+	import enum, warnings
+	what = spec["what"]
+	with warnings.catch_warnings():
+		warnings.simplefilter("ignore")
+		if what == "row-index-kinds":
+			t = Table({"a": [1, 2, 3], "b": [4, 5, 6]}) if spec["ncols"] == 2 else Table({"o": [1, 2, 3]})
+			before = [list(c._underlying) for c in t.cols()]
+			idx = {"bool": True, "int-subclass": _I(1), "intenum": enum.IntEnum("Pos", {"P": 1}).P}[spec["index"]]
+			newrow = [70, 80][:spec["ncols"]]
+			value = {"list": list(newrow), "tuple": tuple(newrow), "range": range(70, 70 + 10 * spec["ncols"], 10), "dict-keys": {x: 0 for x in newrow}.keys(), "generator": (x for x in newrow), "vector": Vector(list(newrow))}[spec["value"]]
+			cols_key = slice(None) if spec["colform"] == "all" else (["a", "b"] if spec["ncols"] == 2 else ["o"])
+			o = call(t.__setitem__, (idx, cols_key), value)
+			exp = [list(c) for c in before]
+			for j in range(spec["ncols"]):
+				exp[j][1] = newrow[j]
+			label = f"{spec['index']}/{spec['value']}/{spec['ncols']}col"
+		elif what == "alias-then-assign":
+			t = Table([Vector([1, 2, 3], name="k"), Vector([4, 5, 6]), Vector([7, 8, 9], name="w")])
+			before = [list(c._underlying) for c in t.cols()]
+			if spec["touch_first"]:
+				call(dir, t)
+			a = call(t.cols()[1].alias, "z")
+			if not a.ok:
+				chk.skip("alias-refused")
+				return
+			o = call({"cell": lambda: t.__setitem__((1, "z"), 50), "column": lambda: t.__setitem__((slice(None), "z"), [40, 50, 60]), "region": lambda: t.__setitem__((slice(0, 2), ["k", "z"]), [[0, 0], [40, 50]]), "row": lambda: t.__setitem__((1, ["z", "w"]), [50, 80])}[spec["write"]])
+			exp = [list(c) for c in before]
+			if spec["write"] == "cell":
+				exp[1][1] = 50
+			elif spec["write"] == "column":
+				exp[1] = [40, 50, 60]
+			elif spec["write"] == "region":
+				exp[0][0:2], exp[1][0:2] = [0, 0], [40, 50]
+			else:
+				exp[1][1], exp[2][1] = 50, 80
+			label = f"alias/{spec['write']}"
+		else:
+			raise ValueError(what)
+	chk.judged("table-assign", ("table-special", what, label))
+	if not o.ok:
+		chk.fail("a valid table assignment is carried out", f"table-assign/raises/{what}/{label}/{type(o.exc).__name__}", f"{spec!r}: {o!r}")
+		return
+	got = [list(c._underlying) for c in t.cols()]
+	if got != exp:
+		chk.fail("table assignment produces the cells per-column list assignment would", f"table-assign/contents/{what}/{label}", f"{spec!r}: {got!r} vs {exp!r}")
+
+
+def run_narrower_subclass(chk, spec):
+	"""an instance of a subclass of a NARROWER kind (a float subclass into a complex column, an int subclass into float / complex, a date subclass into
+	datetime) is a compatible value: accepted, contents as list assignment gives, dtype unchanged - also when an earlier value of the same write promotes"""
+	base = {"complex": [1j, 2j, 3j], "float": [1.5, 2.5, 3.5], "datetime": [datetime(2020, 1, 1, 5), datetime(2020, 1, 2, 5), datetime(2020, 1, 3, 5)], "int-then-complex": [1, 2, 3], "float-then-complex": [1.5, 2.5, 3.5]}[spec["column"]]
+	val = {"float-sub": _F(2.5), "int-sub": _I(7), "date-sub": _D(2021, 2, 3), "bool": True}[spec["value"]]
+	v = Vector(list(base))
+	key = build_key(spec["key"])
+	if spec["column"].endswith("then-complex"):
+		value = [4j, val]
+		key = [0, 1]
+		exp = list(base)
+		exp[0], exp[1] = 4j, val
+	else:
+		value = val if spec["key"][0] in ("int", "mask-list") else [val]
+		exp = list(base)
+		exp[0] = val
+	o = call(v.__setitem__, key, value)
+	chk.judged("assign-ok", ("narrower-subclass", spec["column"], spec["value"], spec["key"][0]))
+	if not o.ok:
+		chk.fail("a value of a narrower compatible kind is assigned", f"assign/raises/narrower-subclass/{spec['column']}/{spec['value']}/{type(o.exc).__name__}", f"{spec!r}: {o!r}")
+		return
+	got = list(v._underlying)
+	if len(got) != len(exp) or any(a != b for a, b in zip(got, exp)):
+		chk.fail("assignment leaves exactly the contents list assignment would produce", f"assign/contents/narrower-subclass/{spec['column']}/{spec['value']}", f"{spec!r}: {got!r} vs {exp!r}")
+		return
+	wb = call(v.__setitem__, 0, v._underlying[0])
+	if not wb.ok:
+		chk.fail("writing an element back is accepted", f"assign/raises/narrower-subclass-write-back/{spec['column']}/{spec['value']}/{type(wb.exc).__name__}", f"{spec!r}: {wb!r}", prop="C03")
+
 
 def run_sequence(chk, spec):
 	"""several VALID writes in a row on one table (cell / row / column / region from another table / whole-slice from a vector) and on the tables
@@ -884,7 +975,7 @@ def run_mask_reuse(chk, spec):
 			return
 
 
-RUNNERS = {"cross_kind_equal": run_cross_kind_equal, "mask_reuse": run_mask_reuse, "own_source": run_own_source, "badmask": run_badmask, "selfmask": run_selfmask, "sequence": run_sequence, "overflow": run_overflow, "assign": run_assign, "iterfault": run_iterfault, "table_assign": run_table_assign, "rename": run_rename, "rename_fault": run_rename_fault, "shared_refusal": run_shared_refusal, "unprintable_value": run_unprintable_value}
+RUNNERS = {"cross_kind_equal": run_cross_kind_equal, "mask_reuse": run_mask_reuse, "own_source": run_own_source, "badmask": run_badmask, "selfmask": run_selfmask, "sequence": run_sequence, "overflow": run_overflow, "assign": run_assign, "iterfault": run_iterfault, "table_assign": run_table_assign, "rename": run_rename, "rename_fault": run_rename_fault, "shared_refusal": run_shared_refusal, "unprintable_value": run_unprintable_value, "table_special_forms": run_table_special_forms, "narrower_subclass": run_narrower_subclass}
 
 COLKINDS = ["bool", "int", "float", "complex", "str", "date", "datetime", "object", "bytes"]
 
@@ -1026,6 +1117,17 @@ def run(chk):
 			continue
 		for keyspec in (("int", 0), ("slice", (0, 1, None)), ("idx-list", [0]), ("mask-list", [True] + [False] * (len(vals) - 1))):
 			chk.case("assign", {"values": vals, "key": keyspec, "vform": "scalar" if keyspec[0] in ("int", "mask-list") else "list", "value": wide if keyspec[0] in ("int", "mask-list") else [wide]}, "assign-promote-mixed")
+	for index in ("bool", "int-subclass", "intenum"):
+		for value in ("list", "tuple", "range", "dict-keys", "generator", "vector"):
+			for ncols in (1, 2):
+				for colform in ("all", "names"):
+					chk.case("table_special_forms", {"what": "row-index-kinds", "index": index, "value": value, "ncols": ncols, "colform": colform}, "table-special-forms")
+	for write in ("cell", "column", "region", "row"):
+		for touch_first in (False, True):
+			chk.case("table_special_forms", {"what": "alias-then-assign", "write": write, "touch_first": touch_first}, "table-special-forms")
+	for column, value in (("complex", "float-sub"), ("complex", "int-sub"), ("complex", "bool"), ("float", "int-sub"), ("float", "bool"), ("datetime", "date-sub"), ("int-then-complex", "float-sub"), ("float-then-complex", "float-sub"), ("int-then-complex", "int-sub")):
+		for keyspec in (("int", 0), ("slice", (0, 1, None)), ("idx-list", [0]), ("mask-list", [True, False, False])):
+			chk.case("narrower_subclass", {"column": column, "value": value, "key": keyspec}, "assign-narrower-subclass")
 	for vals in (["a", "b", "c"], [1, 2, 3], [1.5, 2.5, 3.5], [True, False, True], [date(2020, 1, 1), date(2020, 1, 2), date(2020, 1, 3)], [b"x", b"y", b"z"], [1, "a", 2.5]):
 		for what in ("huge-int", "no-repr"):
 			for keyspec, count in ((("int", 0), 1), (("slice", (0, 2, None)), 2), (("idx-list", [2, 0]), 2), (("mask-list", [False, True, False]), 1)):
